@@ -111,6 +111,66 @@ func init() {
 						lon := []float64{-180, 0, 139.7, 180}[c.In("lon", 4)]
 						checkPoint(c, lon, lat, -3.5, h, 25, false)
 					}},
+				{Name: "boundary-pair-lists", ShardDepth: 2, Bounds: engine.Bounds{InputDev: -1},
+					Rule: "full product h x column/row boundary class x axis x gap in {1 ulp, 5e-11 deg, 2e-10 deg} x shape {[west,east],[east,west],[west,far,east],[west,west,east]}: consecutive list entries that are almost equal but lie in different tiles; every output must equal the ID of that point looked up alone (both APIs); non-trivial = distinct cases whose two near points get different IDs",
+					Body: func(c *engine.Ctx) {
+						h := zs[c.In("h", len(zs))]
+						bs := alpha.HIdx(h)
+						b := bs[c.In("boundary", len(bs))]
+						axis := c.In("axis", 2)
+						gap := c.In("gap", 3)
+						shape := c.In("shape", 4)
+						var w, e [2]float64 // (lon, lat) just before and on/after the boundary
+						if axis == 0 {
+							x := ref.LonBoundary(b, h)
+							below := []float64{math.Nextafter(x, -400), x - 5e-11, x - 2e-10}[gap]
+							if below < -180 {
+								c.Skip("outside-domain")
+							}
+							w, e = [2]float64{below, 35.68}, [2]float64{x, 35.68}
+						} else {
+							y := ref.RowBoundaryLat(b, h) // northern edge of row b: just north of it is row b-1
+							if math.Abs(y) > ref.LatLimit-1e-9 {
+								c.Skip("outside-domain")
+							}
+							d := []float64{4e-10, 5e-10, 6e-10}[gap] // beyond the 1e-10 storage resolution on both sides
+							w, e = [2]float64{139.7, y + d}, [2]float64{139.7, y - d}
+						}
+						mk := func(p [2]float64) *object.Point { q, _ := object.NewPoint(p[0], p[1], 12.5); return q }
+						far := mk([2]float64{-73.9, -40.7})
+						var list []*object.Point
+						switch shape {
+						case 0:
+							list = []*object.Point{mk(w), mk(e)}
+						case 1:
+							list = []*object.Point{mk(e), mk(w)}
+						case 2:
+							list = []*object.Point{mk(w), far, mk(e)}
+						case 3:
+							list = []*object.Point{mk(w), mk(w), mk(e)}
+						}
+						got, err := shape2IDs(list, h)
+						d := map[string]any{"h": h, "west": w, "east": e, "shape": shape, "got": got}
+						if err != nil || len(got) != len(list) {
+							c.Violation("C01:GetExtendedSpatialIdsOnPoints:length-not-preserved", d)
+							return
+						}
+						c.Observe("%v %v %d -> %v", w, e, shape, got)
+						for i, p := range list {
+							one, _ := shape2IDs([]*object.Point{p}, h)
+							if got[i] != one[0] {
+								d["index"], d["alone"] = i, one[0]
+								c.Violation("C01:GetExtendedSpatialIdsOnPoints:list-entry-differs-from-single-lookup[near-equal-neighbours]", d)
+								break
+							}
+						}
+						a1, _ := shape2IDs([]*object.Point{mk(w)}, h)
+						a2, _ := shape2IDs([]*object.Point{mk(e)}, h)
+						if a1[0] != a2[0] {
+							c.Nontrivial(fmt.Sprint(h, b, axis, gap, shape))
+						}
+						c.Outcome(fmt.Sprint(got))
+					}},
 				{Name: "lists", Serial: true, Bounds: engine.Bounds{InputDev: -1},
 					Rule: "lists of length 0..3 from 4 distinct points (with repeats): output i is the ID of input i (length and order), both APIs; a nil element anywhere is an error; non-trivial = distinct lists of length >= 2",
 					Body: func(c *engine.Ctx) {
@@ -238,4 +298,21 @@ func checkPoint(c *engine.Ctx, lon, lat, alt float64, h, v int64, exactAxes bool
 			c.Violation("C01:GetSpatialIdsOnPoints:not-the-same-voxel-permuted", d)
 		}
 	}
+}
+
+// shape2IDs looks the points up through both APIs and returns "<extended>|<spatial>" per point.
+func shape2IDs(list []*object.Point, h int64) ([]string, error) {
+	a, err := shape.GetExtendedSpatialIdsOnPoints(list, h, 20)
+	if err != nil {
+		return nil, err
+	}
+	b, err := shape.GetSpatialIdsOnPoints(list, h)
+	if err != nil || len(a) != len(b) {
+		return nil, fmt.Errorf("spatial form: %v", err)
+	}
+	r := make([]string, len(a))
+	for i := range a {
+		r[i] = a[i] + "|" + b[i]
+	}
+	return r, nil
 }
